@@ -393,6 +393,85 @@ def rule_r8(ctx):
         raise AnalysisBroken("no send function registers an id and then asks nni_aio_start")
 
 
+# ---------------------------------------------------------------------------
+# R9: an unmatched reply is discarded, not punished
+
+
+def rule_r9(ctx):
+    r = ctx.rule("C04.R9", "T1", "an unmatched reply is discarded, not punished: in the receive callbacks that match a reply / response "
+                 "to an outstanding id (req0_recv_cb, surv0_pipe_recv_cb) nni_pipe_close is reached only over the failure edge of "
+                 "nni_aio_result or over an edge that found the message too short to carry an id -- a reply with an unknown, "
+                 "stale or odd id is dropped without disturbing the connection, whose other exchanges would otherwise be reset "
+                 "(ECONNRESET with resending disabled, a retransmission otherwise)", floor=4)
+    prog = ctx.prog
+    n = 0
+    for name, file in (("req0_recv_cb", "reqrep0/req.c"), ("surv0_pipe_recv_cb", "survey0/survey.c")):
+        f = prog.need(name, file)
+        cut = {}
+        for c in f.calls("nni_aio_result"):
+            for b, (nz, z) in f.value_edges(c).items():
+                cut[b] = nz
+        short = G.rel_edges(f, lambda x: x.get("k") == "call" and x.get("fn") == "nni_msg_len",
+                            lambda x: const_of(x) is not None and const_of(x) <= 4, "<")
+        cut2 = dict(cut)
+        cut2.update(short)
+        if not cut or not short:
+            raise AnalysisBroken("%s: result test or length test not found" % name)
+        for c in f.calls("nni_pipe_close"):
+            n += 1
+            if G.dominated(f, (c.b, c.i), cut2):
+                r.ob(f, "nni_pipe_close at line %s only for a failed receive or a message too short for an id" % c.line)
+            else:
+                ctx.fail(r, f, "connection closed for a reply that merely does not match", c.line,
+                         "%s can reach nni_pipe_close (line %s) for a message that was received intact and is long enough to carry "
+                         "an id: a reply nobody waits for must be dropped, not answered by dropping the connection under the "
+                         "other outstanding requests" % (name, c.line),
+                         path=G.path_lines(f, (f.entry, 0), (c.b, c.i), cut=cut2))
+        # and through helpers / gotos the same holds: nothing else in the function closes a socket-level object
+    if n < 4:
+        raise AnalysisBroken("only %d nni_pipe_close sites in the reply-matching callbacks" % n)
+
+
+# ---------------------------------------------------------------------------
+# R10: the routing state of a reply context is written only where a request is taken from a pipe
+
+
+def rule_r10(ctx):
+    r = ctx.rule("C04.R10", "T10", "the routing state of a replying context belongs to the request it received last: the backtrace "
+                 "(btrace, btrace_len) and the origin (pipe_id) of a rep0 / resp0 context are given a value only in the functions "
+                 "that take a request off a pipe's receive aio; everywhere else they are only cleared -- a cancel or error path "
+                 "that puts an earlier request's backtrace back overwrites the one received since, and the next reply goes to the "
+                 "wrong peer with the wrong id", floor=8)
+    prog = ctx.prog
+    n = 0
+    for file, rec in (("reqrep0/rep.c", "rep0_ctx"), ("survey0/respond.c", "resp0_ctx")):
+        for f in prog.fns_in(file):
+            if f.cfg_failed:
+                continue
+            takes = any(c.node["args"] and (last_field(f.expand(c.node["args"][0])) or "").endswith(".aio_recv")
+                        for c in f.calls("nni_aio_get_msg"))
+            writes = []
+            for t in f.assigns():
+                l = t.node["lhs"]
+                if l.get("k") == "mem" and l.get("rec") == rec and l["f"] in ("btrace_len", "pipe_id") and \
+                        const_of(f.expand(t.node["rhs"])) != 0:
+                    writes.append((t, "%s = %s" % (show(l), show(f.expand(t.node["rhs"])))))
+            for c in f.calls(("memcpy", "memmove", "__builtin_memcpy", "__builtin___memcpy_chk")):
+                a0 = f.expand(c.node["args"][0]) if c.node["args"] else None
+                if a0 is not None and any(m.get("k") == "mem" and m.get("rec") == rec and m["f"] == "btrace" for m in walk(a0)):
+                    writes.append((c, "copy into %s" % show(a0)))
+            for t, what in writes:
+                n += 1
+                if takes:
+                    r.ob(f, "%s (line %s) where a request is taken from a pipe" % (what, t.line))
+                else:
+                    ctx.fail(r, f, "routing state written outside the receive path", t.line,
+                             "%s at line %s of %s: this function does not take a request from a pipe, so the value it stores "
+                             "belongs to an earlier exchange; a request received meanwhile loses its route" % (what, t.line, f.name))
+    if n < 8:
+        raise AnalysisBroken("only %d writes of the reply routing state found" % n)
+
+
 def run(ctx):
     ctx.guard(rule_r1)
     ctx.guard(rule_r2)
@@ -402,4 +481,6 @@ def run(ctx):
     ctx.guard(rule_r6)
     ctx.guard(rule_r7)
     ctx.guard(rule_r8)
+    ctx.guard(rule_r9)
+    ctx.guard(rule_r10)
     ctx.guard(rule_hops)
